@@ -20,7 +20,8 @@ Annotations == {"title", "description", "default", "format", "examples", "deprec
                 "readOnly", "writeOnly", "contentEncoding", "contentMediaType", "components", "definitions"}
 Modelled == {"type", "enum", "const", "anyOf", "$ref", "properties", "required", "additionalProperties", "propertyNames",
              "items", "prefixItems", "minItems", "maxItems", "uniqueItems", "minLength", "maxLength", "minProperties", "maxProperties",
-             "pattern", "allOf", "oneOf", "not"} \cup Annotations
+             "pattern", "allOf", "oneOf", "not", "minimum", "maximum", "exclusiveMinimum", "exclusiveMaximum", "multipleOf",
+             "contains", "minContains", "maxContains", "dependentRequired"} \cup Annotations
 
 \* JSON equality: 1 and 1.0 are the same number
 NumForm(j) == IF j[1] = "n" THEN NormFloat(j[2], 0) ELSE IF j[1] = "f" THEN NormFloat(j[2], j[3]) ELSE j
@@ -30,6 +31,23 @@ JEq(a, b) ==
     [] a[1] = "a" /\ b[1] = "a" -> Len(a[2]) = Len(b[2]) /\ \A i \in DOMAIN a[2] : JEq(a[2][i], b[2][i])
     [] a[1] = "o" /\ b[1] = "o" -> Keys(a) = Keys(b) /\ \A k \in Keys(a) : JEq(Get(a, k), Get(b, k))
     [] OTHER -> a = b
+
+V(b) == IF b THEN "valid" ELSE "invalid"
+IsSmallInt(j) == j[1] \in {"n", "f"} /\ NumForm(j)[3] >= 0 /\ NumForm(j)[3] <= 6 /\ NumForm(j)[2] < 2000 /\ NumForm(j)[2] > -2000
+\* order of JSON numbers m * 10^e: exact over a common exponent; "far" when the exponents are too far apart for 32-bit
+\* arithmetic (the event is then unmodelled, never judged)
+Pow10(k) == CASE k = 0 -> 1 [] k = 1 -> 10 [] k = 2 -> 100 [] k = 3 -> 1000 [] k = 4 -> 10000 [] k = 5 -> 100000 [] k = 6 -> 1000000
+NumCmp(a, b) ==
+  LET x == NumForm(a)  y == NumForm(b)
+      e == IF x[3] < y[3] THEN x[3] ELSE y[3] IN
+  IF x[3] - e > 6 \/ y[3] - e > 6 \/ x[2] > 2000 \/ x[2] < -2000 \/ y[2] > 2000 \/ y[2] < -2000 THEN "far"
+  ELSE LET p == x[2] * Pow10(x[3] - e)  q == y[2] * Pow10(y[3] - e) IN
+       IF p < q THEN "lt" ELSE IF p = q THEN "eq" ELSE "gt"
+\* j is a multiple of d (both integral and small)
+MultOf(j, d) == IF IsSmallInt(j) /\ IsSmallInt(d) /\ NumForm(d)[2] # 0
+                THEN V((NumForm(j)[2] * Pow10(NumForm(j)[3])) % (NumForm(d)[2] * Pow10(NumForm(d)[3])) = 0) ELSE "unmodelled"
+Bound(s, kw, j, okset) == IF ~Has(s, kw) THEN "valid"
+                          ELSE LET c == NumCmp(j, Get(s, kw)) IN IF c = "far" THEN "unmodelled" ELSE V(c \in okset)
 
 IsIntegral(j) == j[1] = "n" \/ (j[1] = "f" /\ NumForm(j)[3] >= 0)
 TypeIs(t, j) ==
@@ -56,7 +74,6 @@ RefKnown(root, refs, r) ==
 \* three-valued conjunction over a set of verdicts
 AllV(Z) == IF "invalid" \in Z THEN "invalid" ELSE IF "unmodelled" \in Z THEN "unmodelled" ELSE "valid"
 AnyV(Z) == IF "valid" \in Z THEN "valid" ELSE IF "unmodelled" \in Z THEN "unmodelled" ELSE "invalid"
-V(b) == IF b THEN "valid" ELSE "invalid"
 
 RECURSIVE Valid(_, _, _, _)
 Valid(s, root, refs, j) ==
@@ -74,12 +91,18 @@ Valid(s, root, refs, j) ==
       IF Has(s, "pattern") /\ j[1] = "s"
         THEN (IF Get(s, "pattern")[2] = UtcPattern /\ (\E m \in TzOffsets : TzTable[m] = j[2]) THEN "valid" ELSE "unmodelled")
         ELSE "valid",
+      IF j[1] \in {"n", "f"} THEN AllV({ Bound(s, "minimum", j, {"gt", "eq"}), Bound(s, "maximum", j, {"lt", "eq"}),
+                                         Bound(s, "exclusiveMinimum", j, {"gt"}), Bound(s, "exclusiveMaximum", j, {"lt"}),
+                                         IF Has(s, "multipleOf") THEN MultOf(j, Get(s, "multipleOf")) ELSE "valid" }) ELSE "valid",
       IF j[1] = "s" THEN V(/\ (Has(s, "minLength") => Len(j[2]) >= Get(s, "minLength")[2])
                            /\ (Has(s, "maxLength") => Len(j[2]) <= Get(s, "maxLength")[2])) ELSE "valid",
       IF j[1] = "o" THEN
         AllV({ V(Has(s, "required") => \A i \in DOMAIN Get(s, "required")[2] : Has(j, Get(s, "required")[2][i][2])),
                V(Has(s, "minProperties") => Len(j[2]) >= Get(s, "minProperties")[2]),
-               V(Has(s, "maxProperties") => Len(j[2]) <= Get(s, "maxProperties")[2]) }
+               V(Has(s, "maxProperties") => Len(j[2]) <= Get(s, "maxProperties")[2]),
+               V(Has(s, "dependentRequired") => \A d \in DOMAIN Get(s, "dependentRequired")[2] :
+                     LET dep == Get(s, "dependentRequired")[2][d] IN
+                     Has(j, dep[1]) => \A q \in DOMAIN dep[2][2] : Has(j, dep[2][2][q][2])) }
              \cup { LET k == j[2][i][1]  x == j[2][i][2]
                         named == Has(s, "properties") /\ Has(Get(s, "properties"), k) IN
                     AllV({ IF named THEN Valid(Get(Get(s, "properties"), k), root, refs, x) ELSE "valid",
@@ -92,7 +115,14 @@ Valid(s, root, refs, j) ==
             pre == IF Has(s, "prefixItems") THEN Get(s, "prefixItems")[2] ELSE <<>> IN
         AllV({ V(Has(s, "minItems") => n >= Get(s, "minItems")[2]),
                V(Has(s, "maxItems") => n <= Get(s, "maxItems")[2]),
-               V((Has(s, "uniqueItems") /\ Get(s, "uniqueItems") = <<"b", 1>>) => \A a, b \in 1..n : a # b => ~JEq(j[2][a], j[2][b])) }
+               V((Has(s, "uniqueItems") /\ Get(s, "uniqueItems") = <<"b", 1>>) => \A a, b \in 1..n : a # b => ~JEq(j[2][a], j[2][b])),
+               \* contains / minContains / maxContains (minContains defaults to 1; both are ignored without "contains")
+               IF ~Has(s, "contains") THEN "valid"
+               ELSE LET vs == [i \in 1..n |-> Valid(Get(s, "contains"), root, refs, j[2][i])] IN
+                    IF \E i \in 1..n : vs[i] = "unmodelled" THEN "unmodelled"
+                    ELSE LET cnt == Cardinality({ i \in 1..n : vs[i] = "valid" }) IN
+                         V(/\ cnt >= (IF Has(s, "minContains") THEN Get(s, "minContains")[2] ELSE 1)
+                           /\ (Has(s, "maxContains") => cnt <= Get(s, "maxContains")[2])) }
              \cup { IF i <= Len(pre) THEN Valid(pre[i], root, refs, j[2][i])
                     ELSE IF Has(s, "items") THEN Valid(Get(s, "items"), root, refs, j[2][i]) ELSE "valid" : i \in 1..n })
       ELSE "valid" })
@@ -119,6 +149,11 @@ WellFormed(s) ==
                                 /\ (\A p, q \in DOMAIN Get(s, "required")[2] : p # q => Get(s, "required")[2][p] # Get(s, "required")[2][q]))
     /\ \A kw \in {"minItems", "maxItems", "minLength", "maxLength", "minProperties", "maxProperties"} : Has(s, kw) => IsNat(Get(s, kw))
     /\ Has(s, "uniqueItems") => Get(s, "uniqueItems")[1] = "b"
+    /\ \A kw \in {"minimum", "maximum", "exclusiveMinimum", "exclusiveMaximum"} : Has(s, kw) => Get(s, kw)[1] \in {"n", "f"}
+    /\ Has(s, "multipleOf") => (Get(s, "multipleOf")[1] \in {"n", "f"} /\ NumForm(Get(s, "multipleOf"))[2] > 0)
+    /\ \A kw \in {"minContains", "maxContains"} : Has(s, kw) => IsNat(Get(s, kw))
+    /\ Has(s, "dependentRequired") => (Get(s, "dependentRequired")[1] = "o" /\ \A i \in DOMAIN Get(s, "dependentRequired")[2] :
+           LET d == Get(s, "dependentRequired")[2][i][2] IN d[1] = "a" /\ \A q \in DOMAIN d[2] : d[2][q][1] = "s")
     /\ \A kw \in {"$ref", "pattern", "title", "description", "format", "$schema", "$id"} : Has(s, kw) => Get(s, kw)[1] = "s"
 
 \* every $ref emitted anywhere in the document
